@@ -127,6 +127,35 @@ func group(x *mon.Ctx) {
 			}
 		}
 	}
+	// pairs of unrelated points whose coordinate differences are 0 or a few units (pairs.go): both orders
+	for _, pr := range nearPairs(x, e.ps) {
+		for swap := 0; swap < 2; swap++ {
+			a, b := pr.p, pr.q
+			if swap == 1 {
+				a, b = b, a
+			}
+			c := x.Begin("Add: P=%s Q=%s (near pair %s)", a.name, b.name, pr.kind)
+			if c == nil {
+				continue
+			}
+			c.Class("add/near/%s/swap%d", pr.kind, swap)
+			ax, ay := affine(a.p)
+			bx, by := affine(b.p)
+			var gx, gy *big.Int
+			if c.Call("Add", func() { gx, gy = e.cv.Add(ax, ay, bx, by) }) {
+				eqXY(c, fmt.Sprintf("Add(%s, %s)", ptStr(a.p), ptStr(b.p)), gx, gy, ec.Add(a.p, b.p))
+			}
+			// the same sum inside the point type with the receiver aliasing an operand
+			if A, B := hookPoint(c, a.p), hookPoint(c, b.p); A != nil && B != nil {
+				var r *verifhook.SM2P256Point
+				if c.Call("point.Add", func() { r = A.Add(A, B) }) {
+					eqHook(c, fmt.Sprintf("point.Add(%s, %s) receiver=first operand", ptStr(a.p), ptStr(b.p)), r, ec.Add(a.p, b.p))
+				}
+			}
+			c.Event("add/near", 1)
+			c.End()
+		}
+	}
 }
 
 // slot is one library point paired with the reference value it must represent.
@@ -287,6 +316,34 @@ func jacobian(x *mon.Ctx) {
 			}
 			c.End()
 		}
+	}
+
+	// the generator constant of the point type (used by callers that do not go through ScalarBaseMult)
+	if c := x.Begin("SetGenerator: the built-in generator, alone and as an operand"); c != nil {
+		c.Class("repr/generator")
+		var g *verifhook.SM2P256Point
+		recv := hookPoint(c, e.ps.small[4].p)
+		if recv != nil && c.Call("SetGenerator", func() { g = recv.SetGenerator() }) {
+			if g != recv {
+				c.Fail("mismatch", "SetGenerator did not return its receiver")
+			}
+			checkEnc(c, "SetGenerator()", g, ec.G)
+			var r *verifhook.SM2P256Point
+			if A, nA := hookPoint(c, ec.G), hookPoint(c, ec.Neg(ec.G)); A != nil && nA != nil {
+				if c.Call("G+G", func() { r = newPt().Add(g, A) }) {
+					eqHook(c, "SetGenerator() + SetBytes(G)", r, ec.Double(ec.G))
+				}
+				if c.Call("G+(-G)", func() { r = newPt().Add(g, nA) }) {
+					eqHook(c, "SetGenerator() + SetBytes(-G)", r, ec.Infinity)
+				}
+			}
+			kb := c.R.Bytes(32)
+			var err error
+			if c.Call("[k]SetGenerator()", func() { r, err = newPt().ScalarMult(g, kb) }) && err == nil {
+				eqHook(c, fmt.Sprintf("ScalarMult(SetGenerator(), %x)", kb), r, refBase(new(big.Int).SetBytes(kb)))
+			}
+		}
+		c.End()
 	}
 
 	// B. random walks over a pool of points: every intermediate value is compared
